@@ -326,12 +326,32 @@ Ltac open_nodes := repeat (rewrite names_okb_eq || rewrite kids_okb_cons || rewr
 Lemma put_amount_kids_ok a : kids_okb (put_amount_kids a) = true.
 Proof. unfold put_amount_kids. destruct (a_sym a); reflexivity. Qed.
 
+Lemma put_metadata_ok m : names_okb k_metadata (put_metadata m) = true.
+Proof.
+  unfold put_metadata. rewrite names_okb_eq.
+  assert (H : kids_okb (map (fun kv : str * option str =>
+                               match snd kv with
+                               | Some v => (k_value, Node [] [(k_key, fst kv)] [(k_string, leaf v)])
+                               | None => (k_tag, leaf (fst kv))
+                               end) m) = true).
+  { unfold kids_okb. induction m as [|[k [v|]] m IH]; [reflexivity| |];
+      cbn [map forallb fst snd]; rewrite IH; reflexivity. }
+  rewrite H. reflexivity.
+Qed.
+
+Lemma metadata_kids_ok m : kids_okb (metadata_kids m) = true.
+Proof.
+  unfold metadata_kids. destruct m as [|e m]; [reflexivity|].
+  rewrite kids_okb_cons, put_metadata_ok. reflexivity.
+Qed.
+
 Lemma put_post_ok x p : names_okb k_posting (put_post x p) = true.
 Proof.
   unfold put_post, state_attr.
   destruct (eff_state x p =? 1); [|destruct (eff_state x p =? 2)];
     destruct (p_virtual p =? 0); destruct (p_cost p); destruct (p_note p);
-    cbn [app]; open_nodes; rewrite ?put_amount_kids_ok; reflexivity.
+    destruct (is_nil (payee_from_tag x p));
+    cbn [app]; open_nodes; rewrite ?put_amount_kids_ok, ?metadata_kids_ok; reflexivity.
 Qed.
 
 Lemma put_xact_ok x : names_okb k_transaction (put_xact x) = true.
@@ -339,7 +359,7 @@ Proof.
   unfold put_xact, state_attr.
   destruct (x_state x =? 1); [|destruct (x_state x =? 2)];
     destruct (x_code x); destruct (x_note x);
-    cbn [app]; open_nodes;
+    cbn [app]; open_nodes; rewrite ?metadata_kids_ok;
     rewrite (kids_okb_map (put_post x) k_posting (x_posts x) (put_post_ok x)); reflexivity.
 Qed.
 
